@@ -23,6 +23,7 @@ type rtCase struct {
 	CipherOpt int              // 0: EncryptOptions.Cipher unset, 1: AES-GCM, 2: CHACHA20-POLY1305
 	Alg       enc.KeyAlgorithm // five ids + two aliases
 	RealWrap  bool             // false: identity callbacks (as in kit's suite); true: really wrap with kit's crypto package
+	Retain    bool             // the unwrap callback caches the unwrapped key and hands out the cached slice itself on every call
 	Scrub     bool             // the wrap callback overwrites the plaintext key it was handed once it has wrapped it (key hygiene; in-place wrapping does the same)
 	RSA       int
 
@@ -47,8 +48,8 @@ type rtCase struct {
 }
 
 func (c rtCase) String() string {
-	return fmt.Sprintf("c01{len=%d seed=%d cipherOpt=%d alg=%s realWrap=%v scrub=%v rsa=%d keyName=%q decName=%q omit=%v override=%q src=%v srcEOFWith=%v encCons=%v ctSrc=%v ctEOFWith=%v decCons=%v ref{order=%v solidus=%v unicode=%v omitK=%v cipher=%d}}",
-		c.Len, c.Seed, c.CipherOpt, c.Alg, c.RealWrap, c.Scrub, c.RSA, c.KeyName, c.DecName, c.Omit, c.Override, c.Src, c.SrcEOFWith, c.EncCons, c.CtSrc, c.CtEOFWith, c.DecCons,
+	return fmt.Sprintf("c01{len=%d seed=%d cipherOpt=%d alg=%s realWrap=%v scrub=%v retain=%v rsa=%d keyName=%q decName=%q omit=%v override=%q src=%v srcEOFWith=%v encCons=%v ctSrc=%v ctEOFWith=%v decCons=%v ref{order=%v solidus=%v unicode=%v omitK=%v cipher=%d}}",
+		c.Len, c.Seed, c.CipherOpt, c.Alg, c.RealWrap, c.Scrub, c.Retain, c.RSA, c.KeyName, c.DecName, c.Omit, c.Override, c.Src, c.SrcEOFWith, c.EncCons, c.CtSrc, c.CtEOFWith, c.DecCons,
 		c.RefOrder, c.RefSolidus, c.RefUnicode, c.RefOmitK, c.RefCipher)
 }
 
@@ -76,7 +77,7 @@ func (c rtCase) keyCombo() string {
 }
 
 func (c rtCase) fingerprint() uint64 {
-	return vk.FP(enckit.SegClass(c.Len), c.Len, c.CipherOpt, string(c.Alg), c.RealWrap, c.Scrub, c.keyCombo(),
+	return vk.FP(enckit.SegClass(c.Len), c.Len, c.CipherOpt, string(c.Alg), c.RealWrap, c.Scrub, c.Retain, c.keyCombo(),
 		fmt.Sprint(c.Src, c.SrcEOFWith, c.EncCons, c.CtSrc, c.CtEOFWith, c.DecCons))
 }
 
@@ -122,7 +123,7 @@ func (c rtCase) classes() []string {
 func checkCase(c rtCase) (what, detail string) {
 	p := vk.Expand(c.Seed, c.Len)
 	km := vk.Expand(c.Seed^0x6b65796d6174, 32+16+32+7)
-	v := &vault{identity: !c.RealWrap, scrub: c.Scrub, encName: c.KeyName, sym: km[:32], iv: km[32:48], rsa: c.RSA}
+	v := &vault{identity: !c.RealWrap, scrub: c.Scrub, retain: c.Retain, encName: c.KeyName, sym: km[:32], iv: km[32:48], rsa: c.RSA}
 	refFK, refNP := km[48:80], km[80:87]
 
 	// what the documentation says ends up in the manifest and is asked of the vault
@@ -183,6 +184,13 @@ func checkCase(c rtCase) (what, detail string) {
 	} else {
 		if msg := sameOrFail("Decrypt(Encrypt(p))", p, out, callErr, streamErr); msg != "" {
 			return "round trip", msg
+		}
+		if c.Retain {
+			// the vault hands out its cached key slice: it stays the vault's, and the document decrypts again
+			out2, callErr2, streamErr2 := enckit.Decrypt(c.String(), &vk.ScriptReader{Data: ct, Chunks: c.CtSrc, EOFWith: c.CtEOFWith, FailAt: -1}, dopts, c.DecCons)
+			if msg := sameOrFail("second Decrypt(Encrypt(p)) with the vault's cached key slice", p, out2, callErr2, streamErr2); msg != "" {
+				return "round trip", msg
+			}
 		}
 	}
 
@@ -327,6 +335,7 @@ func genCase(rt *rapid.T) rtCase {
 	c.Alg = rapid.SampledFrom(allAlgs).Draw(rt, "alg")
 	c.RealWrap = rapid.Bool().Draw(rt, "realWrap")
 	c.Scrub = rapid.IntRange(0, 3).Draw(rt, "scrub") == 0
+	c.Retain = rapid.IntRange(0, 3).Draw(rt, "retain") == 0
 	c.RSA = rapid.IntRange(0, 1).Draw(rt, "rsa")
 	base := rapid.SampledFrom(keyNames).Draw(rt, "keyName")
 	c.KeyName = base
@@ -403,7 +412,7 @@ func TestBoundarySweep(t *testing.T) {
 								continue
 							}
 						}
-						c := rtCase{Len: L, Seed: uint64(idx) * 0x9e3779b97f4a7c15, CipherOpt: cipherOpt, Alg: allAlgs[idx%len(allAlgs)], RealWrap: idx%2 == 0, Scrub: idx%5 == 0, RSA: idx % 2,
+						c := rtCase{Len: L, Seed: uint64(idx) * 0x9e3779b97f4a7c15, CipherOpt: cipherOpt, Alg: allAlgs[idx%len(allAlgs)], RealWrap: idx%2 == 0, Scrub: idx%5 == 0, Retain: idx%3 == 0, RSA: idx % 2,
 							KeyName: keyNames[idx%len(keyNames)], Src: ss, SrcEOFWith: eofWith, EncCons: cons, CtSrc: srcStyles[(si+ci+1)%len(srcStyles)], CtEOFWith: idx%4 < 2, DecCons: decCons,
 							RefOrder: [][]string{nil, {"np", "cph", "wfk", "kw", "k"}}[idx%2], RefSolidus: idx%3 == 0, RefUnicode: idx%5 == 0, RefCipher: 1 + idx%2}
 						if c.CtSrc != nil && len(c.CtSrc) == 2 && c.CtSrc[0] == refenc.SegmentSize-1 {
